@@ -7,4 +7,5 @@ CONSTANTS
   CallSeqs <- Calls1
   MaxGen = 1
   AllowExplicit = FALSE
+  Bug = "none"
 PROPERTY EverySaveFinalised
